@@ -441,7 +441,26 @@ where
             fmt_map(v.live.iter().map(|&x| (back[x], format!("{}", p.distances[g.to_index(v.id(x))]))).collect())
         }
     });
-    ans.put("find_negative_cycle", enc, || format!("{}", find_negative_cycle(g, v.id(s)).is_some()));
+    ans.put("find_negative_cycle", enc, || match find_negative_cycle(g, v.id(s)) {
+        None => "false".to_string(),
+        Some(cyc) => {
+            // which cycle is returned depends on the encoding; that it is a closed walk of negative cost must not
+            assert!(!cyc.is_empty(), "find_negative_cycle: empty cycle");
+            let mut total = 0.0f64;
+            for k in 0..cyc.len() {
+                let (x, y) = (cyc[k], cyc[(k + 1) % cyc.len()]);
+                let best = g
+                    .edges(x)
+                    .filter(|e| (e.source() == x && e.target() == y) || (!v.a.directed && e.source() == y && e.target() == x))
+                    .map(|e| *e.weight())
+                    .fold(f64::INFINITY, f64::min);
+                assert!(best.is_finite(), "find_negative_cycle: consecutive nodes {} and {} of the returned cycle are not joined by an edge", lab(v, &back, x), lab(v, &back, y));
+                total += best;
+            }
+            assert!(total < 0.0, "find_negative_cycle: the returned closed walk costs {total}");
+            "true".to_string()
+        }
+    });
 }
 
 const NEG: &[&str] = &["spfa", "floyd_warshall", "bellman_ford", "find_negative_cycle"];
